@@ -6,6 +6,7 @@ receiver threads (op granularity), for every choice of which callbacks fail.
 -/
 import ExecnetVerif.Proofs.Net.Wire
 import ExecnetVerif.Proofs.Net.Got
+import ExecnetVerif.Props.NetGranularity
 namespace ExecnetVerif
 open Net
 
